@@ -5,6 +5,7 @@ From MM Require Import lib.ListSet lib.Values model.Heap model.Elig model.Search
   gen.Gen_GeoAssignments gen.Gen_Search
   proofs.EligProofs proofs.GroupSpecs proofs.SearchBridge proofs.ExhaustiveProofs proofs.GreedyProofs proofs.AdmittedProofs.
 Import ListNotations.
+From MM Require Import gen.Gen_HeapDict gen.Gen_Exhaustive proofs.ExhaustiveBridge.
 
 (* For every value type (whatever numpy computes), every comparison of scores, every list of
    eligibility rows of the admitted geos, every parameter record and every kernel behaviour: *)
@@ -68,3 +69,14 @@ Print Assumptions C01_admitted_all_must_include.
 Print Assumptions C01_design_geos_legal.
 Print Assumptions C01_generated_treat_groups.
 Print Assumptions C01_generated_control_groups.
+
+(* the same, stated on the Gallina regenerated on this run from exhaustive_search itself (gen/Gen_Exhaustive.v):
+   every design stored by the translated code is a legal assignment *)
+Theorem C01_translated_exhaustive_search_legal :
+  forall (V K : Type) (O : vops V) (ltk : K -> K -> bool) (es : list elig) (par : spar V)
+         (shareS optB : set -> V) (bud : set -> set -> V) (score0 : set -> set -> K) (replace_inv : K -> V -> K) d,
+    In d (dd_get (gen_exhaustive_search O ltk (assignments_of es) par shareS optB bud score0 replace_inv) 0%Z) -> legal es (fst (des_groups d)) (snd (des_groups d)).
+Proof.
+  intros. eapply pushed_legal, results_are_pushed. rewrite <- surjective_pairing. eapply gen_exhaustive_in; eassumption.
+Qed.
+Print Assumptions C01_translated_exhaustive_search_legal.
